@@ -7,6 +7,7 @@ two liberalities every current consumer has: <number> where CSS 3 said
 css-color-4, so that a library output such as 'hsl(1e-05, 0%, 0%)' is judged
 as a browser would read it).
 """
+import math
 import re
 from fractions import Fraction
 from collections import namedtuple
@@ -234,3 +235,51 @@ def selftest():
         mine = parse(s)
         for a, b in zip(mine.rgb, (ref.red, ref.green, ref.blue)):
             assert abs(float(a) / 255 - min(1.0, max(0.0, b))) < 1e-9, (s, mine, ref)
+
+
+# ---------------------------------------------------------------- fast path
+_hsl_fast = re.compile(r"^hsl\(\s*(" + _NUM + r")\s*,\s*(" + _NUM + r")%\s*,\s*(" + _NUM + r")%\s*\)$", re.I)
+_rgb_fast = re.compile(r"^rgb\(\s*(\d+)\s*,\s*(\d+)\s*,\s*(\d+)\s*\)$", re.I)
+
+
+def _h2r(m1, m2, h):
+    if h < 0:
+        h += 1
+    if h > 1:
+        h -= 1
+    if h * 6 < 1:
+        return m1 + (m2 - m1) * h * 6
+    if h * 2 < 1:
+        return m2
+    if h * 3 < 2:
+        return m1 + (m2 - m1) * (2.0 / 3.0 - h) * 6
+    return m1
+
+
+def read_fast(s):
+    """Same reading as read(), float arithmetic with an exact fallback when a
+    channel lands within 1e-6 of a rounding tie (or the syntax is unusual)."""
+    t = s.strip(_WS)
+    m = _rgb_fast.match(t)
+    if m:
+        return tuple(min(255, int(v)) for v in m.groups())
+    m = _hex_re.match(t)
+    if m and len(m.group(1)) == 6:
+        h = m.group(1)
+        return (int(h[0:2], 16), int(h[2:4], 16), int(h[4:6], 16))
+    m = _hsl_fast.match(t)
+    if m:
+        h = (float(m.group(1)) % 360.0) / 360.0
+        sat = min(100.0, max(0.0, float(m.group(2)))) / 100.0
+        lig = min(100.0, max(0.0, float(m.group(3)))) / 100.0
+        m2 = lig * (sat + 1) if lig <= 0.5 else lig + sat - lig * sat
+        m1 = lig * 2 - m2
+        out = []
+        for hh in (h + 1.0 / 3.0, h, h - 1.0 / 3.0):
+            x = _h2r(m1, m2, hh) * 255.0
+            fr = x - math.floor(x)
+            if abs(fr - 0.5) < 1e-6 or abs(hh * 6 - round(hh * 6)) < 1e-9 or abs(lig - 0.5) < 1e-12:
+                return read(s)
+            out.append(int(math.floor(x + 0.5)))
+        return tuple(min(255, max(0, v)) for v in out)
+    return read(s)
